@@ -220,7 +220,7 @@ func (r *Run) Finish() int {
 	// clear old replay files
 	if ents, err := os.ReadDir(outDir); err == nil {
 		for _, e := range ents {
-			if strings.HasPrefix(e.Name(), "v-") {
+			if strings.HasPrefix(e.Name(), "v-") || strings.HasPrefix(e.Name(), "u-") {
 				os.Remove(filepath.Join(outDir, e.Name()))
 			}
 		}
@@ -275,11 +275,21 @@ func (r *Run) Finish() int {
 	}
 	wall := time.Since(r.Start).Seconds()
 	exit := 0
-	if len(r.unresolved) > 0 {
-		for _, u := range r.unresolved {
-			fmt.Printf("UNRESOLVED property=%s %s\n", r.Prop, u)
-		}
-		exit = 2
+	// An anchor a rule needs is gone (or a rule matches fewer instances than
+	// were confirmed by hand): the structural condition can no longer be
+	// established on this tree. Under the check contract that is "not held":
+	// reported as a violation naming the rule instance that could not be decided.
+	for i, u := range r.unresolved {
+		fmt.Printf("UNRESOLVED property=%s %s\n", r.Prop, u)
+		replay := filepath.Join(outDir, fmt.Sprintf("u-%03d.json", i+1))
+		bts, _ := json.MarshalIndent(map[string]interface{}{
+			"property": r.Prop, "rule": "unresolved", "construct": u, "pos": "",
+			"detail":     "the construct this rule is anchored in was not found in the shape the rule can decide: the necessary condition cannot be established on this tree",
+			"replay_cmd": fmt.Sprintf("./check %s --replay %s", r.Prop, replay),
+		}, "", " ")
+		os.WriteFile(replay, bts, 0o644)
+		violLines = append(violLines, fmt.Sprintf("VIOLATION property=%s replay=%s", r.Prop, replay))
+		exit = 1
 	}
 	for _, l := range violLines {
 		fmt.Println(l)
